@@ -21,7 +21,9 @@ def weave_rfc(toks, rng):
 NUM_TEXTS = ['0', '-0', '1', '-1', '10', '123', '2147483647', '2147483648', '-2147483648', '-2147483649', '4294967296', '0.5', '-0.25', '1e5', '1E5', '1e+5', '1e-5',
              '1.5e300', '1e400', '-1e400', '1e-400', '0.1', '0.30000000000000004', '123456789012345678901234567890', '1.7976931348623157e308', '1.7976931348623159e308',
              '4.9e-324', '2.4703282292062327e-324', '2.4703282292062328e-324', '2.2250738585072011e-308', '9007199254740993', '0.1e1', '1.0', '100e-2', '1e0', '0e0', '0.0', '-0.0e-0',
-             '999999999999999', '1000000000000000', '5e-1', '17976931348623157' + '0' * 292, '0.' + '0' * 50 + '1', '1' + '0' * 62, '1.' + '1' * 61, '1' * 63, '3.141592653589793']
+             '999999999999999', '1000000000000000', '5e-1', '17976931348623157' + '0' * 292, '0.' + '0' * 50 + '1', '1' + '0' * 62, '1.' + '1' * 61, '1' * 63, '3.141592653589793',
+             # one unit and half a unit on either side of both ends of the int range (valueint saturates, valuedouble does not)
+             '2147483646', '2147483646.5', '2147483647.5', '-2147483646', '-2147483647', '-2147483647.5', '-2147483648.5', '-2147483647.0000001', '2147483646.9999999']
 
 NUM_TEXTS_OK = [t for t in NUM_TEXTS if len(t) <= 63]
 
